@@ -207,7 +207,7 @@ PROPS['C15'] = dict(
     rule='scripted worlds around the real client (lib/client mclient -> dclient) on the virtual clock: per state the outcome of its blocking '
          'operation is drawn at random as the client enters it (valid/invalid/late/missing/negative replies per exchange kind; leases 60 s..1 day with '
          'absent/consistent/inconsistent T1/T2; class A-D addresses with absent/canonical/non-contiguous/zero masks; ARP conflict, own answer, silence; '
-         'SetIface failures; link-up during every kind of wait; NAK storms that exhaust the rate limiter); 150/5000 scripts of 6-45 state visits; the '
+         'SetIface failures; link-up during every kind of wait; NAK storms that exhaust the rate limiter); 250/5000 scripts of 6-45 state visits; the '
          'sequence of interface operations (with the configuration handed to SetIface), first transmissions and crashes with their virtual times is compared '
          'with the automaton model (1501); the harness also stamps every stimulus with its virtual instant and the exchange kind seen on the wire, and the '
          'property is read off that record and the client actions by mon_C15 (1510; 1511 = the monitor on the model history of the same script). Non-trivial = more than 3 state visits.',
